@@ -219,6 +219,13 @@ func (n *Native) Do(req NativeReq, timeout time.Duration) (resp NativeResp, time
 	}
 }
 
+// Fresh restarts the helper process, so that the next request is answered by
+// a process that has not compiled anything yet.
+func (n *Native) Fresh() {
+	n.Close()
+	n.start()
+}
+
 // ---- workers
 
 type Worker struct {
@@ -608,7 +615,18 @@ func (w *Worker) crossCheck(cs *Case, x *OracleCtx, rep *Report, srcOf map[*Prog
 			rep.crossSkipped()
 			return
 		}
-		if nres.Err.Panic != "" || eout != strOf(nres.Out) || eres.Err.IsErr != nres.Err.IsErr || emsg != strOf(nres.Err.Msg) {
+		differs := func(nres *CompileResult) bool {
+			return nres.Err.Panic != "" || eout != strOf(nres.Out) || eres.Err.IsErr != nres.Err.IsErr || emsg != strOf(nres.Err.Msg)
+		}
+		if differs(nres) {
+			// the helper process has served other requests: ask a fresh one
+			w.N.Fresh()
+			if fres, err := w.nativeCompile(src, v.Opt, values); err == nil && !differs(fres) {
+				rep.historyDependent(fmt.Sprintf("case %s variant %s: the native build answers differently in a process that compiled other inputs before\nsource:\n%s\nfresh process: %q\nused process: %q", cs.Name, v.Name, src, strOf(fres.Out), strOf(nres.Out)))
+				continue
+			}
+		}
+		if differs(nres) {
 			rep.engineMismatch(fmt.Sprintf("case %s variant %s: engine and native build disagree\nsource:\n%s\nengine: %q err=%q\nnative: %q err=%q panic=%q", cs.Name, v.Name, src, eout, emsg, strOf(nres.Out), strOf(nres.Err.Msg), nres.Err.Panic))
 			return
 		}
@@ -668,6 +686,7 @@ func (w *Worker) handleViolation(cs *Case, x *OracleCtx, v *Violation, rep *Repo
 // Replay compiles the instantiated case natively and runs the oracle on the
 // native results with concrete atoms.
 func (w *Worker) Replay(cs *Case, values map[int]string, srcOf map[*Program]string) (bool, *Violation, map[string]string, map[string]string) {
+	w.N.Fresh() // a counterexample is confirmed on a process that compiled nothing before
 	var rv *Violation
 	srcs := map[string]string{}
 	outs := map[string]string{}
@@ -796,6 +815,8 @@ type Report struct {
 	CrossSkipped int
 	Completions  int
 	EngineMism   []string
+	HistoryDep      int
+	HistoryDepFirst string
 	Violations   []*Finding
 	Unconfirmed  []*Finding
 	KnownHit     map[string]int
@@ -897,6 +918,18 @@ func (r *Report) addSolver(s *interp.Solver) {
 func (r *Report) completion()   { r.mu.Lock(); r.Completions++; r.mu.Unlock() }
 func (r *Report) crossOK()      { r.mu.Lock(); r.CrossOK++; r.mu.Unlock() }
 func (r *Report) crossSkipped() { r.mu.Lock(); r.CrossSkipped++; r.mu.Unlock() }
+// historyDependent records that the native build gave a different answer
+// after other compilations in the same process (a C17 matter; the engine
+// starts every path from fresh package state).
+func (r *Report) historyDependent(s string) {
+	r.mu.Lock()
+	r.HistoryDep++
+	if r.HistoryDepFirst == "" {
+		r.HistoryDepFirst = s
+	}
+	r.mu.Unlock()
+}
+
 func (r *Report) engineMismatch(s string) {
 	r.mu.Lock()
 	if len(r.EngineMism) < 20 {
@@ -1037,6 +1070,7 @@ func (r *Report) Finish(env *Env) int {
 			"cross_check_skipped":           r.CrossSkipped,
 			"inconclusive_paths_completed_by_one_native_model": r.Completions,
 			"engine_mismatches":             len(r.EngineMism),
+			"native_answers_depending_on_process_history": r.HistoryDep,
 			"reachability_witnesses":        r.Witnesses,
 			"known_findings_hit":            r.KnownHit,
 			"inconclusive_violation_queries": r.InconViol,
@@ -1056,6 +1090,9 @@ func (r *Report) Finish(env *Env) int {
 	os.WriteFile(filepath.Join(OutDir, "evidence", r.Property+".json"), b, 0o644)
 	fmt.Printf("%s %s: skeletons=%d paths=%d (inconclusive %d, beyond-bound %d) queries=%d solver=%.1fs cross-checked=%d violations=%d known=%d wall=%.1fs\n",
 		r.Property, r.Tier, r.Cases, r.Paths.Paths, r.Paths.Inconclusive, r.Paths.BeyondBound, r.solverQ, r.solverTime.Seconds(), r.CrossOK, len(r.Violations), len(r.KnownHit), wall)
+	if r.HistoryDep > 0 {
+		fmt.Printf("NOTE: %d native cross-checks gave a different answer in a used helper process than in a fresh one (compilation depends on earlier compilations in the process: see C17): %s\n", r.HistoryDep, strings.SplitN(r.HistoryDepFirst, "\n", 2)[0])
+	}
 	if r.Paths.Inconclusive > 0 {
 		why := ""
 		for m := range r.Paths.InconMsgs {
